@@ -141,11 +141,16 @@ impl ErrorMessages {
             let Some(span) = e.span else {
                 continue;
             };
+            // A span that points into a source which is not one of `sources`
+            // (the standard library, for example) means nothing to the reader
+            // of the message.
             let Some(source_path) = sources.source_ids.get(&span.source_id) else {
+                e.span = None;
                 continue;
             };
 
             let Ok(source) = cache.fetch(source_path) else {
+                e.span = None;
                 continue;
             };
             e.location = e.compose_location(source);
